@@ -887,6 +887,13 @@ func (b *BlockWise[C]) processReceivedMessage(w *responsewriter.ResponseWriter[C
 	}
 	defer closeCachedReceivedMessage()
 	verifhook.Yield("blockwise.receive.holdingGuard", 0)
+	if cachedReceivedMessageGuard != nil {
+		// This block has waited for the transfer's guard behind another block. If that one completed the transfer
+		// (or gave it up), the message is no longer the transfer's: it has been handed on, perhaps released.
+		if e := b.receivingMessagesCache.Load(tokenStr); e == nil || e.Data() != cachedReceivedMessageGuard {
+			return fmt.Errorf("block(%v) arrived while the transfer it belongs to was ending", num)
+		}
+	}
 
 	defer func(err *error) {
 		if *err != nil {
